@@ -66,9 +66,9 @@ theorem inv_done_flush {cfg : Cfg} {s : St} {d : Disk} (h : Inv cfg s d) {j : Jo
         | none =>
           rw [he] at hkind
           simp only at hkind
-          obtain ⟨_, b5, c5, e5, e6⟩ := f5 p hp rfl
+          obtain ⟨_, b5, c5, e6⟩ := f5 p hp rfl
           rw [hkind.1] at b5 c5 e6
-          refine Or.inr (Or.inr ⟨fun x hx => ⟨fun hm => (by cases b5 x hx hm), ?_⟩, e5, fun hx => ?_⟩)
+          refine Or.inr (Or.inr ⟨fun x hx => ⟨fun hm => (by cases b5 x hx hm), ?_⟩, fun hx => ?_⟩)
           rotate_left
           · apply List.eq_nil_iff_forall_not_mem.2
             intro x hxa
@@ -200,7 +200,7 @@ theorem inv_done_recovFinal {cfg : Cfg} {s : St} {d : Disk} (h : Inv cfg s d) {j
     exact ⟨hbv.1, hbv.2.1, fun _ => by rw [hvjn, hjc]; exact Nat.le_refl _⟩
   · intro _
     refine ⟨⟨rfl, by unfold TrOK; show Holds' s.tr _; rw [hrec.idle.2.2]; trivial⟩,
-      ⟨MfdOK.nojob rfl hfd, hopen⟩, ?_, ?_, ⟨hrec.nums.1, hrec.nums.2.1⟩, ?_,
+      ⟨MfdOK.nojob rfl hfd, hopen⟩, ?_, ?_, ⟨fun p hp => Or.inl (hrec.nums.1 p hp), hrec.nums.2.1⟩, ?_,
       frozenOK_iff.2 (Or.inl ⟨rfl, rfl⟩), ?_, fun _ => ?_⟩
     · show Holds (lookup d.journals s.jcur) _
       have hl : lookup d.journals pn.1 = some pn.2 := lookup_of_mem hnd (by cases pn; exact hpn)
@@ -210,11 +210,12 @@ theorem inv_done_recovFinal {cfg : Cfg} {s : St} {d : Disk} (h : Inv cfg s d) {j
         · omega
         · exact h1
       show JournalHolds _ pn.2 ([] ++ inflight .idle) s.seq
-      refine ⟨fun x hx => (by cases hx), fun x hx _ => ?_, fun x hx => ?_, fun _ => hemp, fun _ x hx => ?_⟩
+      refine ⟨fun x hx => (by cases hx), fun x hx _ => ?_, fun x hx => ?_, fun _ x hx => ?_⟩
       · rw [hemp] at hx; cases hx
       · rw [hemp] at hx; cases hx
       · rw [hemp] at hx; cases hx
-    · intro p hp
+    · refine ⟨by show s.jcur < s.nextFile; rw [hjc]; exact hnlt, fun p hp => Or.inl ?_⟩
+      show p.1 ≤ s.jcur
       rw [hjc]
       rcases hall p hp with h1 | ⟨h1, _⟩
       · exact Nat.le_of_lt h1
@@ -307,6 +308,14 @@ theorem inv_done_tr {cfg : Cfg} {s : St} {d : Disk} (h : Inv cfg s d) {j : Job} 
     obtain ⟨h1, h2⟩ := hcom (e.added.headD 0, [g]) (by rw [houts]; exact List.mem_singleton.2 rfl)
     refine List.mem_flatMap.2 ⟨_, h1, ?_⟩
     simp only [tableGrpsOf, h2, Option.map_some, Option.getD_some, List.mem_singleton]
+  have hold := rel_groups_old h.disk hrun (by rw [hw]; rfl) (by rw [hmem]; intro x hx; cases hx)
+  have hmust' : ∀ s' : St, s'.w = .idle → s'.issued = setStatus g .acked s.issued → ∀ x ∈ must s', x ∈ must s ∨ x = g := by
+    intro s' hw' hi' x hx
+    rw [must_eq] at hx ⊢
+    simp only [hw, hw', hi', List.append_nil] at hx ⊢
+    rcases mem_ackedSync_setStatus hx with h1 | ⟨rfl, _⟩
+    · exact Or.inl h1
+    · exact Or.inr rfl
   unfold finishJob
   rw [hk]
   simp only [hg]
@@ -323,7 +332,9 @@ theorem inv_done_tr {cfg : Cfg} {s : St} {d : Disk} (h : Inv cfg s d) {j : Job} 
         have : k = 0 := by simpa [hun] using hk1
         subst this
         rw [hv0] at hv1; cases hv1
-        exact Or.inl hglive
+        refine ⟨Or.inl hglive, fun p hp hxp => ?_⟩
+        have := hold mf hcur 0 (Nat.zero_le _) v hv0 p hp x hxp
+        omega
     · intro x hx
       simp only [issuedGrps, issuedGrps_setStatus] at hx ⊢
       exact hx
@@ -334,23 +345,31 @@ theorem inv_done_tr {cfg : Cfg} {s : St} {d : Disk} (h : Inv cfg s d) {j : Job} 
     exact ⟨hbv.1, hbv.2.1, hbv.2.2⟩
   · intro _
     obtain ⟨r1, r2, r3, r4, r5, r6, r7, r8, r9⟩ := hrun
-    have hsome : s.tr.isSome = true := by rw [hg]; rfl
     refine ⟨⟨r1.1, trivial⟩, ⟨MfdOK.nojob rfl hfd, r2.2⟩, ?_, r4, r5, ?_, ?_, ?_, fun _ => ?_⟩
     · refine r3.imp (fun jf hjf => ?_)
-      have hemp := hjf.2.2.2.1 hsome
+      rw [hmem, hw] at hjf
+      have hbound : ∀ x ∈ jf.all, x.fin ≤ s.seq + 1 := by
+        intro x hx
+        rcases hjf.2.2.1 x hx with h4 | h4
+        · simp [inflight] at h4
+        · exact h4
       rw [hmem, hw]
-      refine ⟨fun x hx => (by cases hx), fun x hx _ => ?_, fun x hx => ?_, fun _ => hemp, fun _ x hx => ?_⟩
-      · rw [hemp] at hx; cases hx
-      · rw [hemp] at hx; cases hx
-      · rw [hemp] at hx; cases hx
+      refine ⟨fun x hx => (by cases hx), fun x hx hxm => ?_, fun x hx => ?_, fun hef x hx => ?_⟩
+      · rcases hmust' _ rfl rfl x hxm with h4 | rfl
+        · exact hjf.2.1 x hx h4
+        · have := hbound x hx; omega
+      · right; show x.fin ≤ g.fin - 1 + 1; have := hbound x hx; omega
+      · exact hjf.2.2.2 hef x hx
     rotate_left 2
     · refine r8.imp (fun mf1 hmf1 => hmf1.imp (fun v1 hv1 p hp hge => ?_))
       rcases hv1 p hp hge with h1 | h1 | h1
       · exact Or.inl h1
       · exact Or.inr (Or.inl h1)
-      · have hemp := h1.2.1 hsome
-        refine Or.inr (Or.inr ⟨fun x hx => ?_, fun _ => hemp, fun _ => hemp⟩)
-        rw [hemp] at hx; cases hx
+      · refine Or.inr (Or.inr ⟨fun x hx => ⟨fun hxm => ?_, ?_⟩, h1.2⟩)
+        · rcases hmust' { s with job := none, tr := none, seq := g.fin - 1, hi := g.fin, issued := setStatus g .acked s.issued } hw rfl x hxm with h4 | rfl
+          · exact (h1.1 x hx).1 h4
+          · have := (h1.1 x hx).2; omega
+        · show x.fin ≤ g.fin - 1 + 1; have := (h1.1 x hx).2; omega
     rotate_left 1
     · show WSeqOK _
       unfold WSeqOK
